@@ -399,7 +399,14 @@ pub fn catch<T>(f: impl FnOnce() -> T) -> Result<T, String> {
 
 /// Silence the default panic message (cases run under `catch`).
 pub fn quiet_panics() {
-    std::panic::set_hook(Box::new(|_| {}));
+    // (PVH_PANIC_LOC=1: print where a panic came from — for debugging the harness itself)
+    if std::env::var("PVH_PANIC_LOC").is_ok() {
+        std::panic::set_hook(Box::new(|info| {
+            if let Some(l) = info.location() { eprintln!("panic at {}:{}", l.file(), l.line()); }
+        }));
+    } else {
+        std::panic::set_hook(Box::new(|_| {}));
+    }
 }
 
 /// Read the lines of every `*.ops`/`*.case` file under the corpus directory (sorted by name).
